@@ -13,7 +13,8 @@ RULE = (
     "case = timeline of server segments in virtual time (each 1..5 frames: text, binary, fragments of a message possibly "
     "spanning segments, ping, pong; bursts followed by silence; optionally frames in the same segment as the handshake "
     "response), subset of callbacks set, set of callbacks that raise, transport plain or TLS (records = segments, the "
-    "selector sees undecrypted bytes only). Non-trivial: >= 2 frames in one segment, or a fragmented message, or a "
+    "selector sees undecrypted bytes only), optionally a loss of the connection followed by a re-established one (reconnect "
+    "interval set, on_reconnect given or not). Non-trivial: >= 2 frames in one segment, or a fragmented message, or a "
     "raising callback, or TLS. Distinct = (segments, callbacks, raising set, transport)."
 )
 ORACLES = [
@@ -52,9 +53,24 @@ def run_case(case):
             all_frames.append((dt, f))
         t_last = max(t_last, dt)
     t_end = t_last + 7.0
-    timeline.append([t_end, ["data", rm.encode_frame(1, rm.CLOSE, struct.pack(">H", 1000))]])
-    spec = {"timeline": timeline, "hs_extra": hs_extra, "hs_delay": case.get("hs_delay", 0.0)}
-    sc = simpeers.Scenario(sched, net, [spec])
+    second = case.get("second")
+    interval = case.get("interval", 1.0)
+    frames2 = []
+    if second is None:
+        timeline.append([t_end, ["data", rm.encode_frame(1, rm.CLOSE, struct.pack(">H", 1000))]])
+        specs_att = [{"timeline": timeline, "hs_extra": hs_extra, "hs_delay": case.get("hs_delay", 0.0)}]
+    else:
+        # the first connection is lost (end of stream); after the reconnect interval a second one is established
+        timeline.append([t_end, ["eof"]])
+        tl2, t2_last = [], 0.0
+        for dt, specs in second:
+            wire, frames, ends = rx.wire_of(specs)
+            tl2.append([dt, ["data", wire]])
+            frames2 += [(dt, f) for f in frames]
+            t2_last = max(t2_last, dt)
+        tl2.append([t2_last + 5.0, ["data", rm.encode_frame(1, rm.CLOSE, struct.pack(">H", 1000))]])
+        specs_att = [{"timeline": timeline, "hs_extra": hs_extra, "hs_delay": case.get("hs_delay", 0.0)}, {"timeline": tl2}]
+    sc = simpeers.Scenario(sched, net, specs_att)
     trace = []
     raising = set(case.get("raise_in", []))
     cbs = set(case.get("callbacks", CBS))
@@ -75,8 +91,10 @@ def run_case(case):
     def body():
         kw = {n: mk(n) for n in CBS if n in cbs}
         kw["on_close"] = mk("on_close")
+        if second is not None and case.get("on_reconnect"):
+            kw["on_reconnect"] = mk("on_reconnect")
         app = websocket.WebSocketApp(("wss" if case.get("secure") else "ws") + "://c13.test/app", **kw)
-        ret["r"] = app.run_forever()
+        ret["r"] = app.run_forever(reconnect=interval) if second is not None else app.run_forever()
 
     with simkit.installed(sched, net):
         try:
@@ -107,8 +125,20 @@ def run_case(case):
 
     if "on_open" in raising and "on_error" in cbs and "on_open" in cbs:
         exp.append((t0, "on_error", "Boom", None))
-    for dt, f in all_frames:
-        t = t0 + dt
+    conns = [(t0, all_frames)]
+    if second is not None:
+        t0b = t0 + t_end + interval
+        conns.append((t0b, frames2))
+    for ci, (tbase, flist) in enumerate(conns):
+      if ci == 1:
+        name = "on_reconnect" if case.get("on_reconnect") else "on_open"
+        if name in cbs or name == "on_reconnect":
+            exp.append((tbase, name))
+            if name in raising and "on_error" in cbs:
+                exp.append((tbase, "on_error", "Boom", None))
+        msg_op, buf = None, b""
+      for dt, f in flist:
+        t = tbase + dt
         if f.opcode == rm.PING:
             emit(t, "on_ping", f.payload)
         elif f.opcode == rm.PONG:
@@ -122,7 +152,9 @@ def run_case(case):
                 data = buf.decode("utf-8") if msg_op == rm.TEXT else buf
                 emit(t, "on_data", data, msg_op, True)
                 emit(t, "on_message", data)
-    got = [e for e in trace if e[1] != "on_close" and e[0] < t0 + t_end - 1e-9]
+    t_stop = (t0 + t_end) if second is None else (conns[1][0] + (max([d for d, _ in frames2] or [0.0]) + 5.0))
+    # connection-loss errors of the first connection are not part of this property's expected trace
+    got = [e for e in trace if e[1] != "on_close" and e[0] < t_stop - 1e-9 and not (e[1] == "on_error" and e[2] != "Boom")]
     # compare
     for i, w in enumerate(exp):
         if i >= len(got):
@@ -156,10 +188,10 @@ def _cls(obs, case):
     segs = case["segments"]
     multi = any(len(s[1]) >= 2 for s in segs)
     frag = any(not f.get("fin", 1) for s in segs for f in s[1])
-    nt = multi or frag or bool(case.get("raise_in")) or case.get("secure")
+    nt = multi or frag or bool(case.get("raise_in")) or case.get("secure") or case.get("second") is not None
     obs.cls = ("tls" if case.get("secure") else "plain", f"segments:{min(len(segs), 6)}", f"multi_frame_segment:{int(multi)}", f"fragmented:{int(frag)}",
-               f"raising:{len(case.get('raise_in', []))}", f"hs_segment_frames:{int(any(s[0] == 0 for s in segs))}", f"callbacks:{len(case.get('callbacks', CBS))}")
-    obs.nt = repr((case.get("secure"), segs, sorted(case.get("callbacks", CBS)), sorted(case.get("raise_in", [])))) if nt else None
+               f"raising:{len(case.get('raise_in', []))}", f"hs_segment_frames:{int(any(s[0] == 0 for s in segs))}", f"callbacks:{len(case.get('callbacks', CBS))}", f"reconnected:{int(case.get('second') is not None)}")
+    obs.nt = repr((case.get("secure"), segs, sorted(case.get("callbacks", CBS)), sorted(case.get("raise_in", [])), case.get("second"), case.get("on_reconnect"))) if nt else None
     return obs
 
 
@@ -199,7 +231,18 @@ def cases(draw):
         segs.append([t + 1.0, [{"fin": 1, "op": rm.CONT, "p": b"end"}]])
     cbs = draw(st.one_of(st.just(CBS), st.lists(st.sampled_from(CBS), unique=True, min_size=1).map(sorted)))
     raise_in = draw(st.one_of(st.just([]), st.lists(st.sampled_from(["on_open", "on_message", "on_data", "on_ping", "on_pong"]), unique=True, max_size=3).map(sorted)))
-    return {"segments": segs, "callbacks": cbs, "raise_in": [r for r in raise_in if r in cbs], "secure": draw(st.booleans()), "hs_delay": draw(st.sampled_from([0.0, 0.2]))}
+    c = {"segments": segs, "callbacks": cbs, "raise_in": [r for r in raise_in if r in cbs], "secure": draw(st.booleans()), "hs_delay": draw(st.sampled_from([0.0, 0.2]))}
+    if draw(st.integers(0, 3)) == 0:
+        # the connection is lost and re-established (reconnect interval set): on_reconnect / on_open must precede the new connection's events
+        t2 = 0.0
+        second = []
+        for _ in range(draw(st.integers(1, 2))):
+            t2 += draw(st.sampled_from([0.01, 0.5, 3.0]))
+            second.append([t2, draw(st.lists(st.sampled_from([{"fin": 1, "op": rm.TEXT, "p": b"again"}, {"fin": 1, "op": rm.BINARY, "p": b"\x01"}, {"fin": 1, "op": rm.PING, "p": b"q"}]), min_size=1, max_size=3))])
+        c["second"] = second
+        c["interval"] = draw(st.sampled_from([0.5, 2.0]))
+        c["on_reconnect"] = draw(st.booleans())
+    return c
 
 
 def jobs(tier, seed):
